@@ -90,7 +90,7 @@ HeaderShape ==
 
 LenRoundTrip ==
   mode = "len" /\ x \in 1..520 =>
-    LET ser == Serialize(<<[op |-> 118], [d |-> Elem(x)], [op |-> 172]>>)
+    LET ser == SerializeScript(<<[op |-> 118], [d |-> Elem(x)], [op |-> 172]>>)
         p == ParseScript(ser.bytes)
     IN /\ ser.ok /\ p.ok
        /\ p.cmds = <<[op |-> 118], [d |-> Elem(x)], [op |-> 172]>>
@@ -100,7 +100,7 @@ LenRoundTrip ==
 
 ScriptRoundTrip ==
   mode = "ser" =>
-    LET ser == Serialize(x)
+    LET ser == SerializeScript(x)
         p == ParseScript(ser.bytes)
     IN ser.ok /\ p.ok /\ p.cmds = x /\ p.used = Len(ser.bytes)
 
